@@ -414,7 +414,7 @@ def run(res):
   res.extra["modules_analysed"] = len(done)
   res.extra["histogram"] = dict(sorted(hist.items()))
   res.extra["inspect_bind_own_divergences"] = n_bind_div
-  res.extra["exhaustive"] = ("every def with <=2 parameters of each kind x <=3 positional x <=2 keywords, plain functions"
+  res.extra["exhaustive_scope"] = ("every def with <=2 parameters of each kind x <=3 positional x <=2 keywords, plain functions"
                              if thorough and complete else False)
   if thorough:
     ok, out = common_coqchk("C13")
